@@ -467,7 +467,12 @@ def load_known_findings():
     if os.path.isdir(d):
         for f in sorted(os.listdir(d)):
             if f.endswith(".json"):
-                for e in json.load(open(os.path.join(d, f)))["findings"]:
+                try:
+                    entries = json.load(open(os.path.join(d, f)))["findings"]
+                except (ValueError, KeyError) as ex:     # a malformed file suppresses nothing
+                    sys.stderr.write("warning: ignoring malformed %s: %s\n" % (f, ex))
+                    continue
+                for e in entries:
                     if not any(o["property"] == e["property"] and o["key"] == e["key"] for o in out):
                         out.append(e)
     return out
